@@ -1362,6 +1362,10 @@ def run_impl(case):
                 elif k == "reload" and st != "ok" and not x_since_test:
                     # (a report that external edits have overtaken since may name files that are gone)
                     oracle.add("usable", "%s/%s" % (k, st[4:]), i, op, error=result)
+            if k in ("reload", "reloadglyphs", "reloadfiles") and st != "ok":
+                # a reload that raised has reloaded an unknown part of what it was asked for: the harness can no longer
+                # tell what the font has read (if the failure itself was a violation it has been recorded above)
+                oracle.tainted = True
             # ---- oracle: the report (judged against the record as it was before this test) ------------
             if k == "test" and st == "ok":
                 reports += 1
